@@ -509,6 +509,20 @@ fn apply_variant(m: &mut Model, v: i64) {
                 keep_walls(m, &|w| w.bounds != BoundaryType::EXTERIOR || glazed.contains(&w.id));
             }
         }
+        8 => {
+            // a unit between party walls whose only exposure is a sliver of facade a few millimetres wide (the joint between
+            // two party walls): every side wall adiabatic, the first floor on the ground, one exterior strip of 0.003 m2
+            for w in m.walls.iter_mut() {
+                if (w.geometry.tilt - 90.0).abs() < 1.0 { w.bounds = BoundaryType::ADIABATIC; w.next_to = None; }
+            }
+            if let Some(f) = m.walls.iter_mut().find(|w| w.geometry.tilt > 150.0) { f.bounds = BoundaryType::GROUND; }
+            if let Some(s0) = m.walls.iter().find(|w| w.geometry.tilt > 150.0).map(|w| (w.space, w.cons)) {
+                m.walls.push(bemodel::Wall { name: "sliver".into(), bounds: BoundaryType::EXTERIOR, space: s0.0, cons: s0.1,
+                    geometry: bemodel::WallGeom { tilt: 90.0, azimuth: 0.0, position: None,
+                        polygon: vec![nalgebra::point![0.0, 0.0], nalgebra::point![0.003, 0.0], nalgebra::point![0.003, 1.0], nalgebra::point![0.0, 1.0]] }, ..Default::default() });
+            }
+            m.windows.clear();
+        }
         _ => {}
     }
     // with a measured value on the odd stages, without on the even ones
@@ -766,7 +780,7 @@ pub fn main_session(args: &Args) {
         if args.flag("--variants") {
             // the building as the editor holds it while it is being drawn: without some kinds of element, with fully glazed
             // facades, with and without a measured air-tightness value
-            for v in 1..=7 {
+            for v in 1..=8 {
                 reqs.push(json!({"abs": a, "ops": ["compute_lite"], "lite": true, "variant": v, "name": format!("rnd{}", i), "edit": format!("variant {}", v)}));
             }
         }
